@@ -3,8 +3,10 @@ Tie/C08 — the structural tie of the fsloop model to the source (DESIGN 1.4).
 
 `Goat/Tie/ExtractedC08.lean` is regenerated on every run of `./check C08` by `harness/cmd/loop facts`
 (go/ast) from the working tree of the repository under test: for each modelled function the ordered
-list of its calls and channel operations (verifhook yield points skipped).  The theorems below
-compare them with what `Goat/Model/Loop.lean` assumes; they fail by name when the code moves.
+list of its calls and channel operations, and its control skeleton (the body statement by statement
+with the nesting explicit, expressions printed by go/printer; verifhook yield points skipped).  The
+theorems below compare them with what `Goat/Model/Loop.lean` assumes; they fail by name when the code
+moves.
 -/
 import Goat.Tie.ExtractedC08
 
@@ -49,5 +51,100 @@ theorem tie_producer_order :
       "producer.processList", "go newProducer.Loop"]
     ∧ processFile = ["send:fileChan"] := by
   decide
+
+/-! ### Control skeletons: where the kill flag is tested, where errors are reported, what `Wait` waits for -/
+
+/-- `Consumer.Loop`, statement by statement (verifhook yield points dropped).  What the model's `PC`
+transitions rely on: `lifecycle.IsKilled()` is tested at the top of every iteration and nowhere else
+(`PC.top`; in particular not between a receive and its callback, and not after a callback: `PC.inCb`
+has no kill test and a running callback's result is always handled); after the step read both queue
+lengths are tested; each callback's error is handed to `lifecycle.Error(err)` unconditionally
+(`PC.rep`); after `OnDir` the loop body falls through to the `fileChan` test (`afterCb`). -/
+theorem tie_consumer_body : consumerBody =
+    ["defer consumer.pool.Done()", "for {", "if consumer.lifecycle.IsKilled() {", "return", "}",
+     "isClosed := consumer.lifecycle.Step() == StepClose",
+     "if len(consumer.loopData.chans.dirChan) == 0 && len(consumer.loopData.chans.fileChan) == 0 {",
+     "if isClosed {", "return", "}", "runtime.Gosched()", "} else {",
+     "if len(consumer.loopData.chans.dirChan) != 0 {", "select {",
+     "case row, more := <-consumer.loopData.chans.dirChan:", "if !more {", "continue", "}",
+     "if err := consumer.loopData.OnDir(consumer.loopData.Filespace, row); err != nil {",
+     "consumer.lifecycle.Error(err)", "}", "default:", "continue", "}", "}",
+     "if len(consumer.loopData.chans.fileChan) != 0 {", "select {",
+     "case row, more := <-consumer.loopData.chans.fileChan:", "if !more {", "continue", "}",
+     "if err := consumer.loopData.OnFile(consumer.loopData.Filespace, row); err != nil {",
+     "consumer.lifecycle.Error(err)", "}", "default:", "continue", "}", "}", "}", "}"] := rfl
+
+/-- The producers, statement by statement.  `Producer.Loop`: a failing `ReadDir` is reported with
+`lifecycle.Error(err)` and the goroutine returns (`Prod.rep`, skip 0).  `processList`: the only kill
+test is `if producer.lifecycle.IsKilled() { return true }` at the end of an iteration (`PAct.chk`);
+the directory branch under a `DirFilter` ends in `continue` (no `chk`), so do "." / "..", a nil `OnFile`
+and a rejected file; `processDir` returning true makes `processList` return true.  `processDir`: with no
+free slot (`pool.Add(1) == 0`) the directory is listed inline, a failing `ReadDir` is reported with
+`lifecycle.Error(err)` and `true` is returned, the nested `processList`'s result is dropped
+(`return false`); otherwise a new producer is started.  `processFile` is one blocking send. -/
+theorem tie_producer_bodies :
+    producerLoopBody =
+      ["defer producer.pool.Done()", "readDir, err := producer.loopData.Filespace.ReadDir(producer.path)",
+       "if err != nil {", "producer.lifecycle.Error(err)", "return", "}",
+       "producer.processList(producer.path, readDir)"]
+    ∧ processListBody =
+      ["for _, node := range readDir {", "if node.Name() == \".\" || node.Name() == \"..\" {", "continue",
+       "}", "nodePath := basePath + node.Name()", "if node.IsDir() {",
+       "if producer.loopData.DirFilter != nil {",
+       "if producer.loopData.DirFilter(producer.loopData.Filespace, nodePath) {",
+       "if producer.loopData.OnDir != nil {", "producer.loopData.chans.dirChan <- nodePath", "}",
+       "if isKilled := producer.processDir(nodePath); isKilled {", "return true", "}", "}", "continue",
+       "}", "if producer.loopData.OnDir != nil {", "producer.loopData.chans.dirChan <- nodePath", "}",
+       "if isKilled := producer.processDir(nodePath); isKilled {", "return true", "}", "} else {",
+       "if producer.loopData.OnFile == nil {", "continue", "}",
+       "if producer.loopData.FileFilter != nil && !producer.loopData.FileFilter(producer.loopData.Filespace, nodePath) {",
+       "continue", "}", "producer.processFile(nodePath)", "}", "if producer.lifecycle.IsKilled() {",
+       "return true", "}", "}", "return false"]
+    ∧ processDirBody =
+      ["jobCounter := producer.pool.Add(1)", "if jobCounter == 0 {",
+       "readDir, err := producer.loopData.Filespace.ReadDir(nodePath)", "if err != nil {",
+       "producer.lifecycle.Error(err)", "return true", "}", "basePath := nodePath + \"/\"",
+       "producer.processList(basePath, readDir)", "return false", "}",
+       "newProducer := &Producer{ lifecycle: producer.lifecycle, pool: producer.pool, loopData: producer.loopData, path: nodePath + \"/\", }",
+       "go newProducer.Loop()", "return false"]
+    ∧ processFileBody = ["producer.loopData.chans.fileChan <- nodePath"] :=
+  ⟨rfl, rfl, rfl, rfl⟩
+
+/-- `Loop.Wait` waits for the consumer pool and for nothing else (`waitEnabled`); `Loop.Errors` is the
+lifecycle's `Errors()` (`errorsOf`); `Loop.KillSlot` is `lifecycle.Kill()`, and `Loop.Run` connects it
+to the scope's Error and Kill events (`Label.errEvent`, `Label.kill`); the lifecycle is strict and
+its lifetime is the constant `workers.DefaultTimeout` (`Label.timeout`). -/
+theorem tie_wait_errors_killslot :
+    waitBody = ["loop.consumerPool.Wait()"]
+    ∧ errorsBody = ["return loop.lifecycle.Errors()"]
+    ∧ killSlotBody = ["loop.lifecycle.Kill()", "return nil"]
+    ∧ runLifecycle =
+      ["jobsync.NewLifecycle(workers.DefaultTimeout, true)",
+       "loop.scope.On(app.ErrorEvent, loop.KillSlot)", "loop.scope.On(app.KillEvent, loop.KillSlot)"] :=
+  ⟨rfl, rfl, rfl, rfl⟩
+
+/-- `jobsync.Lifecycle`: `Error` appends under the mutex and then (strict mode) kills; `Kill` is the
+context's cancel function; `IsKilled` is a non-blocking receive from `ctx.Done()`; `Errors` copies
+the list under the mutex and appends `ctx.Err()`; the context is created with a deadline
+(`context.WithDeadline`) `lifetime` after `NewLifecycle`.  The constants: channel capacity 1000
+(`Params.capD`, `capF`), the close step, the two-minute lifetime. -/
+theorem tie_lifecycle :
+    lcError =
+      ["lifecycle.mutex.Lock()", "lifecycle.errors = append(lifecycle.errors, e...)",
+       "if lifecycle.strictMode {", "lifecycle.Kill()", "}", "lifecycle.mutex.Unlock()"]
+    ∧ lcKill = ["lifecycle.cancel()"]
+    ∧ lcIsKilled =
+      ["select {", "case <-lifecycle.ctx.Done():", "return true", "default:", "}", "return false"]
+    ∧ lcErrors =
+      ["lifecycle.mutex.Lock()", "errs := make([]error, len(lifecycle.errors))",
+       "copy(errs, lifecycle.errors)", "lifecycle.mutex.Unlock()",
+       "return goaterr.AppendError(errs, lifecycle.ctx.Err())"]
+    ∧ lcNew =
+      ["deadline := time.Now().Add(lifetime)",
+       "lifecycle = &Lifecycle{ strictMode: strictMode, errors: []error{}, }",
+       "lifecycle.ctx, lifecycle.cancel = context.WithDeadline(context.Background(), deadline)",
+       "return lifecycle"]
+    ∧ consts = ["ChanSize=1000", "StepClose=999", "DefaultTimeout=2 * time.Minute"] :=
+  ⟨rfl, rfl, rfl, rfl, rfl, rfl⟩
 
 end Goat.Tie.C08
